@@ -138,6 +138,32 @@ fn case_to(c: &mut Cur) -> Result<Vec<W>, BadCase> {
     Ok(r.unwrap_or_else(|_| vec![2]))
 }
 
+/// [13; shp bytes] -> the shapes of the file as the generic reader returns them (also shapes no constructor
+/// builds: parts of one or no point, no part at all), each converted with Geometry::try_from:
+/// [0, n, per shape (1 | 0 geometry)] | [1] when the file cannot be read
+fn case_to_from_file(c: &mut Cur) -> Result<Vec<W>, BadCase> {
+    let bytes = read_bytes(c)?;
+    let r = std::panic::catch_unwind(std::panic::AssertUnwindSafe(move || {
+        let mut out = vec![];
+        let shapes = match ShapeReader::new(std::io::Cursor::new(bytes)).and_then(|r| r.read()) {
+            Ok(v) => v,
+            Err(_) => return vec![1],
+        };
+        out.extend([0, shapes.len() as W]);
+        for s in shapes {
+            match Geometry::<f64>::try_from(s) {
+                Err(_) => out.push(1),
+                Ok(g) => {
+                    out.push(0);
+                    render_geo(&g, &mut out);
+                }
+            }
+        }
+        out
+    }));
+    Ok(r.unwrap_or_else(|_| vec![2]))
+}
+
 /// [2; geometry] -> Shape::try_from(geometry), then Geometry::try_from(that shape)
 fn case_from(c: &mut Cur) -> Result<Vec<W>, BadCase> {
     let g = read_geo(c)?;
@@ -200,6 +226,7 @@ fn main() {
         let r = match c.next() {
             Ok(10) => case_to(&mut c),
             Ok(11) => case_from(&mut c),
+            Ok(13) => case_to_from_file(&mut c),
             Ok(12) => case_dims(&mut c),
             _ => Err(BadCase),
         };
